@@ -149,12 +149,25 @@ func fieldChains(ff *core.FuncFacts, info *types.Info, e ast.Expr) [][]string {
 			walk(x.X, acc, depth+1, seen)
 		case *ast.SelectorExpr:
 			if f := core.FieldSel(info, x); f != nil {
+				if f.Embedded() {
+					walk(x.X, acc, depth+1, seen) // an embedded struct's fields are the owner's
+					return
+				}
 				walk(x.X, append([]string{f.Name()}, acc...), depth+1, seen)
 				return
 			}
 			out = append(out, acc)
 		case *ast.IndexExpr:
 			walk(x.X, acc, depth+1, seen)
+		case *ast.CompositeLit:
+			// a literal list of fields: []*SchemaRef{s.Not, s.Items}
+			for _, el := range x.Elts {
+				if kv, ok := el.(*ast.KeyValueExpr); ok {
+					walk(kv.Value, acc, depth+1, seen)
+				} else {
+					walk(el, acc, depth+1, seen)
+				}
+			}
 		case *ast.CallExpr:
 			// accessor methods: x.Map(), x.Operations(), x.Value(k): treated as reading the receiver
 			if sel, ok := x.Fun.(*ast.SelectorExpr); ok {
